@@ -93,6 +93,18 @@ func genBuiltinCalls(stream string, seed uint64, perFn int) []GenCase {
 			out = append(out, GenCase{Case: c, Stream: stream, NonTrivial: true, Role: "expecttrue"})
 		}
 	}
+	// the replacement of replace() is a template ($0 the match, $1.. and $name the groups, $$ a dollar; an
+	// unknown or unmatched reference is empty) - for plain and for regexp patterns alike; stated directly,
+	// because the executable model declines to answer for replacements containing `$`
+	for _, p := range [][4]string{{"a-b-c", "\"-\"", "<$0>", "a<->b<->c"}, {"abc", "\"b\"", "$1", "ac"}, {"abc", "\"b\"", "$$", "a$c"}, {"abc", "\"(b)\"", "[$1$1]", "a[bb]c"},
+		{"abc", "\"b\"", "${0}x", "abxc"}, {"abc", "\"b\"", "$0x", "ac"}, {"abc", "\"b\"", "$", "a$c"}, {"abc", "/(?P<m>b)/", "<$m>", "a<b>c"}, {"abc", "/b/", "<$0>", "a<b>c"},
+		{"a.b", "\"\\\\.\"", "[$0]", "a[.]b"}, {"aXbX", "\"X\"", "$0$0", "aXXbXX"}, {"abc", "\"c\"", "${1}", "ab"}, {"abc", "\"\"", "$0-", "-a-b-c-"}} {
+		c := Case{ID: fmt.Sprintf("%s-%d", stream, id), Opt: r.Bool(), Fns: []HostFn{recFn()}, Tags: []string{"replace-template-contract"},
+			Script: fmt.Sprintf("return replace(%q, %s, %q) == %q;", p[0], p[1], p[2], p[3]),
+			Runs:   []Run{{Obj: stdObject(r), Polls: defaultPolls}}}
+		id++
+		out = append(out, GenCase{Case: c, Stream: stream, NonTrivial: true, Role: "expecttrue"})
+	}
 	// well-typed uses
 	for k := 0; k < perFn*4; k++ {
 		switch r.Intn(12) {
@@ -128,6 +140,12 @@ func genBuiltinCalls(stream string, seed uint64, perFn int) []GenCase {
 	for _, pat := range []string{"\"(\"", "/(/", "\"[\"", "\"a{2,1}\"", "\"*\"", "Name + \"(\"", "\"\\\\\""} {
 		add(fmt.Sprintf("return [replace(\"abc\", %s, \"x\"), match(\"abc\", %s)];", pat, pat), "invalid-pattern")
 		add(fmt.Sprintf("if (\"abc\" ~= %s) { return 1; } return replace(Name, %s, \"\");", pat, pat), "invalid-pattern")
+	}
+	// the replacement text of replace() is a template: $0, $1, ${1}, $name, $$ - whatever the pattern looks like
+	for _, pat := range []string{"\"-\"", "\"b\"", "/-/", "/(b)/", "/(?P<x>b)/", "\"a|c\"", "\"\""} {
+		for _, rep := range []string{"\"<$0>\"", "\"$1\"", "\"${1}x\"", "\"$$\"", "\"$x\"", "\"[$0$0]\"", "\"$\"", "\"$9\""} {
+			add(fmt.Sprintf("return [replace(\"a-b-c\", %s, %s), replace(\"abc\", %s, %s)];", pat, rep, pat, rep), "replace-template")
+		}
 	}
 	// match, ~=, !~ and regexp cases look at every line of the subject, each trimmed of the blanks around it:
 	// multi-line subjects × anchored patterns, in the four places a match is made
